@@ -233,7 +233,7 @@ def string_to_bytes(text, unit_system='IEC', return_int=False):
     try:
         base, reg_ex = UNIT_SYSTEM_INFO[unit_system]
     except KeyError:
-        msg = _('Invalid unit system: "%s"') % unit_system
+        msg = _('Invalid unit system: "%s"') % (unit_system,)
         raise ValueError(msg)
     match = reg_ex.match(text)
     if match:
